@@ -28,7 +28,7 @@ open SaModel SaModel.Build SaModel.Spec
 well formed and appends exactly one logical row.  `Safe b` is a property of the schema (no dictionary with
 non-nullable keys below a nullable struct / fixed-size list — see `dict_placeholder_unstable` for why it is
 needed).  No hypothesis on the value: raw key/value call streams (`SVal.mapRaw`) that do not alternate are REFUSED
-by a Map builder since repo fix bcc3416 (`map_refuses_non_alternating` below; the former hypothesis `rawOK x` is
+by a Map builder since repo fix eafdf15 (`map_refuses_non_alternating` below; the former hypothesis `rawOK x` is
 gone), a struct builder accepts them and stays well formed. -/
 theorem push_appends (ext : Ext) (x : SVal) (b b' : B) (hwf : WFB b) (hsafe : Safe b)
     (h : push ext b x = .ok b') : WFB b' ∧ Safe b' ∧ ∃ lv, dec b' = dec b ++ [lv] := by
@@ -111,7 +111,7 @@ theorem pushMapOps_ok_alternating (ext : Ext) (ops : SMapOps) (pd : Bool) (offs 
 
 /-- **A Map builder refuses every raw key/value call stream that does not alternate** (two keys in a row, a value
 without a key, a trailing key — exactly the streams `Spec.interpDT` calls `malformed`), whatever the keys and values
-are and whatever state the builder is in.  Before repo fix bcc3416 such a stream was accepted and left keys and
+are and whatever state the builder is in.  Before repo fix eafdf15 such a stream was accepted and left keys and
 values of the Map array at different lengths (finding C16-map-key-value-alternation). -/
 theorem map_refuses_non_alternating (ext : Ext) (p : String) (mm : MapMeta) (v : Validity) (offs : List Int)
     (ks vs : B) (ops : SMapOps) (hmal : isAlternating ops = false) (b' : B) :
